@@ -271,3 +271,16 @@ prop(
                  "worker threads have the default 2 MiB stack of std threads"],
 )
 
+prop(
+    "C17",
+    module="Aquatic.Props.C17",
+    extra_modules=["Aquatic.Props.C08", "Aquatic.Props.C09", "Aquatic.Props.WsStore"],
+    technique="Lean 4 proof (addressing of every message in the refined model: one reply on the requesting connection, forwards to the owner of the addressed peer only, second peer id refused and connection ended, close leaves nothing in sending order; two-channel scheduling model with the overtaking counterexample) + socket-level differential runs against the real tracker process with several WebSocket clients",
+    runs=[dict(harness="wsnet", driver="wsstore", quick=dict(cases=6), thorough=dict(cases=60, burst=600))],
+    nontrivial=["offers-forwarded", "answer-forwarded", "ignored-foreign-owner", "second-peer-id-closes", "close-with-entries", "wburst", "scrape-nonzero"],
+    level_text="Theorems (on the model refined in C08 / C09, for every reachable state): an announce that is not ignored yields, after the forwarded messages, exactly one announce reply addressed to the sender; a scrape exactly one scrape reply to the requester; every forwarded offer / answer is addressed to the connection owning the addressed stored peer of the same torrent, tagged with the sender's peer id; an announce under a second peer id for a torrent not stopped yields one error reply and ends the connection, whose peers all disappear; after a close processed in sending order no stored peer is owned by the closed connection. Two-channel model (requests / control, each FIFO, swarm worker free to pick): in sending order nothing remains; taking the close notice first leaves the entry (negation witness, finding F11). Tie: tracker child process, socket_workers x swarm_workers in {1,2,3}^2, 3..6 WebSocket clients, announces with offers / answers, scrapes over torrents of different swarm workers, garbage messages, orderly and abrupt closes, bursts of pipelined announces followed by a TCP reset; every message each client receives is compared with model and reference.",
+    level_note="partial for the runtime part: glommio channel meshes and task scheduling, TCP and WebSocket framing are exercised only. Known findings: F11 (a burst of announces can be overtaken by the close notice: peers of a dropped connection remain until they expire), F14 (the error reply for a second peer id is dropped when the reader task ends the connection).",
+    design_ref="§8 C17",
+    assumptions=["a message is considered not sent if it has not arrived 150 ms after the last one (3 s at most per operation)"],
+)
+
